@@ -213,6 +213,12 @@ def check_history(case, stats):
     seen = {}
     outcomes = []
     for i, t in enumerate(texts):
+        if case["api"] == "pair" and i in case.get("new_generator_before", []):
+            # the id generator is a public attribute of builder and compiler: give the re-used pair a brand-new shared one
+            g = gh.IdGenerator()
+            parser.ast_builder.id_generator = g
+            compiler.id_generator = g
+            seen = {}
         out = run(t)
         outcomes.append("acc" if out is not None else "rej")
         if out is None:
@@ -224,6 +230,8 @@ def check_history(case, stats):
             seen[x] = i
         if ids:
             base = min(ids)
+            if case["api"] == "pair" and i in case.get("new_generator_before", []) and base != 0:
+                raise Violation(case, "document #%d was processed right after its parser/compiler got a fresh id generator, yet its ids start at %d" % (i, base))
             if sorted(ids) != list(range(base, base + len(ids))):
                 raise Violation(case, "ids of document #%d are not contiguous: %r" % (i, sorted(ids)[:30]))
             f = fresh(t)
@@ -243,7 +251,7 @@ def g_history(s):
                                    "@t\nFeature: f\n @u\n Scenario: s\n  Given x\n   \"\"\"\n   open"]))
         else:
             texts.append(noisy.g_noisy(s)[0])
-    return {"sub": "history", "api": s.choice(["stream", "pair"]), "texts": texts}
+    return {"sub": "history", "api": s.choice(["stream", "pair"]), "texts": texts, "new_generator_before": [i for i in range(1, n) if s.int(4) == 0]}
 
 
 def unit_history(a):
